@@ -40,8 +40,13 @@ def log_acceptance(kind: str, ctx, it: dict, crit=None) -> tuple[float | None, d
     T = it["T"]
     kT = kB * T
     e_cur = float(atoms.get_potential_energy())
-    dE = e_cur - float(ctx.last_potential_energy)
-    det = {"T": T, "dE": dE, "kind": kind}
+    # reference energy and cell: what the workload recorded when the trial started (an independent evaluation of the
+    # configuration the trial started from, and its cell), where the workload drives the trials itself; otherwise the
+    # context's documented last_* fields (that those describe the last accepted configuration is C04's subject)
+    e_ref = it.get("e_ref")
+    dE = e_cur - float(ctx.last_potential_energy if e_ref is None else e_ref)
+    cell_ref = it.get("cell_ref")
+    det = {"T": T, "dE": dE, "kind": kind, "references": "recorded at the start of the trial" if (e_ref is not None or cell_ref is not None) else "context"}
     if kind == "canonical":
         return -dE / kT, det
     if kind == "hamiltonian":
@@ -51,13 +56,14 @@ def log_acceptance(kind: str, ctx, it: dict, crit=None) -> tuple[float | None, d
         if ke_ref is None:
             ke_ref = float(ctx.last_kinetic_energy)
         det["ke_ref_source"] = "recorded at the start of the trajectory" if it.get("ke_ref") is not None else "context"
-        dH = (e_cur + float(atoms.get_kinetic_energy())) - float(ctx.last_potential_energy) - float(ke_ref)
+        dH = (e_cur + float(atoms.get_kinetic_energy())) - float(ctx.last_potential_energy if e_ref is None else e_ref) - float(ke_ref)
         det["dH"] = dH
         return -dH / kT, det
     if kind in ("isobaric", "isotension"):
         P = it.get("P", 0.0)
         V1 = float(abs(np.linalg.det(atoms.cell.array)))
-        V0 = float(abs(np.linalg.det(np.asarray(ctx.last_cell))))
+        h0_ref = np.asarray(ctx.last_cell if cell_ref is None else cell_ref, dtype=float)
+        V0 = float(abs(np.linalg.det(h0_ref)))
         N = len(atoms)
         logA = -(dE + P * (V1 - V0)) / kT + (N + 1) * math.log(V1 / V0)
         det.update({"P": P, "V0": V0, "V1": V1, "N": N})
@@ -70,7 +76,7 @@ def log_acceptance(kind: str, ctx, it: dict, crit=None) -> tuple[float | None, d
                 # the pinned commit, recomputed independently from the two cells: eps = (D^T - 1)/2 with D = h h0^-1
                 # (h, h0: current / remembered cell, rows = cell vectors).  What the criteria reports is compared with it.
                 h = np.asarray(atoms.cell.array, dtype=float)
-                h0 = np.asarray(ctx.last_cell, dtype=float)
+                h0 = h0_ref
                 eps = 0.5 * ((h @ np.linalg.inv(h0)).T - np.eye(3))
                 det["strain"] = eps
                 rep = getattr(crit, "strain_tensor", None)
@@ -163,6 +169,7 @@ def make_wrapper(rec: Rec, kind: str, orig, is_static: bool):
             return out
         rec.evaluations += 1
         rec.count("judged:" + kind)
+        rec.count("references_" + ("recorded_at_trial_start" if det.get("references", "").startswith("recorded") else "from_context"))
         if kind == "hamiltonian":
             rec.count("hamiltonian_reference_from_" + ("trajectory_start" if det.get("ke_ref_source", "").startswith("recorded") else "context"))
             if it.pop("trajectories", 0) >= 2:
